@@ -149,7 +149,8 @@ class C18(Prop):
           "clauses) and the resting state after start_at and after every event are identical in "
           "every configuration. Non-trivial: the case contains >=1 transition with "
           "|exits|+|entries| >= 2 (by the reference model) compared across >=4 configurations; "
-          "distinct = distinct case digests." % len(CONFIGS))
+          "distinct = distinct case digests. One scripted case is a chain of 130 nested states started at the innermost one "
+          "(steps whose spy log exceeds the 250-line per-step buffer)." % len(CONFIGS))
   assumptions = [
     "live output goes to harness callbacks; their content is checked by C21, not here",
     "if every configuration agrees but differs from the reference model the case is counted "
@@ -158,6 +159,28 @@ class C18(Prop):
 
   def strategy(self, tier):
     return chartgen.chart_case(max_events=8, max_states=10)
+
+  def extra(self, tier, seed, shard, nshards, stats):
+    """Very deep charts: a chain of 130 nested states started at the innermost one (a start_at
+    and a transition whose spy log is longer than the 250 lines the per-step buffer keeps)."""
+    if shard != 0:
+      return
+    for n, styles in ((130, ("function",)),):
+      for style in styles:
+        spec = {"n": n, "parent": [i - 1 for i in range(n)], "init": [None] * n,
+                "react": [{} for _ in range(n)], "sigs": ["VA", "VB"],
+                "entry": [True] * n, "exit": [True] * n, "initc": [False] * n, "spy": True, "acts": {},
+                "style": style}
+        spec["react"][n - 1]["VB"] = ["trans", 0]
+        spec["react"][0]["VA"] = ["trans", n - 1]
+        spec["react"][5]["VB"] = ["handle"]
+        case = {"spec": spec, "start": n - 1, "events": ["VA", "VB", "VA", "VB", "VB"]}
+        try:
+          self.check(case, stats)
+        except PropertyViolation as v:
+          yield case, v
+          return
+    stats.classes["chain_of_130_states"] = 1
 
   def check(self, case, stats):
     model = Model(case["spec"])
